@@ -4,7 +4,7 @@
 From Coq Require Import String List NArith ZArith Bool.
 From J5V.lib Require Import Outcome Corr.
 From J5V.model Require Import RulesDecl RulesWrite RulesSpec Validate RulesSpecDec Regex.
-From J5V.model Require Import RulesRead RulesNested RulesNestedSem RulesOneof.
+From J5V.model Require Import RulesRead RulesNested RulesNestedSem RulesOneof RulesCompile.
 Import ListNotations.
 
 (* decidable equality on emitted annotations (transparent, so it computes) *)
@@ -90,11 +90,14 @@ Definition verdict_eqb (a b : verdict) : bool :=
 Definition spec_agree (m : bool) (g : option bool) : bool :=
   match g with Some b => Bool.eqb m b | None => true end.
 
-(* one property: environment, position, declaration, what the compiler emitted,
+(* one property: environment, position, declaration (in the extended language of
+   RulesCompile: with multipleOf / map Ext), what the compiler emitted (or that it
+   refused: compile_prop runs the front checks with the RE2-fragment parser as
+   regexp.Compile),
    and per value: what the real validator returned and what the Go oracle reads
    the declaration as saying *)
 Inductive c12case :=
-| C12Case (env : enum_env) (idx : N) (d : prop) (obs : outcome fout) (vals : list (fvalue * verdict * option bool))
+| C12Case (env : enum_env) (idx : N) (x : xprop) (obs : outcome fout) (vals : list (fvalue * verdict * option bool))
 (* a whole message: the declarations, the emitted fields and per message (one
    value per field): what the real validator returned (violations on these
    fields only) and the Go oracle's conjunction of the declared rules *)
@@ -130,8 +133,9 @@ Fixpoint mtree_eqb_with (proj : fout -> fout) (a b : mtree) : bool :=
 
 Definition c12_check (c : c12case) : bool :=
   match c with
-  | C12Case env idx d obs vals =>
-      out_agree (write_prop env idx d) obs &&
+  | C12Case env idx x obs vals =>
+      let d := x_prop x in
+      out_agree (compile_prop re_frag_ok env idx x) obs &&
       match obs with
       | Ok o => forallb (fun p => match p with (fv, vd, g) =>
                   verdict_eqb (validate_sem re_frag_ok re_frag_match (defined_numbers env) o fv) vd
